@@ -246,3 +246,89 @@ func ChainTable(depth int, leaf Row) []Row {
 	t[depth] = leaf
 	return t
 }
+
+// PruneRows replaces the rows in `prune` (never row 0) of an all-ordinary level-0 table by pruned branches of mask
+// 1<<lvl carrying the real level-0 hash/depth of what they replace; ancestors' masks become the OR of their children.
+// Returns the pruned table (unreachable rows dropped) and the number of pruned branches it contains.
+func PruneRows(t []Row, prune map[int]bool, lvl int) ([]Row, int) {
+	sh := NewSpecHasher(t)
+	out := make([]Row, len(t))
+	for i := len(t) - 1; i >= 0; i-- {
+		if prune[i] && i != 0 {
+			out[i] = PrunedRow(sh, i, lvl)
+			continue
+		}
+		r := t[i]
+		r.Refs = append([]int{}, t[i].Refs...)
+		m := 0
+		for _, c := range r.Refs {
+			m |= out[c].Mask
+		}
+		r.Mask = m
+		out[i] = r
+	}
+	res := SubTable(out, 0)
+	n := 0
+	for _, r := range res {
+		if r.Ty == 1 {
+			n++
+		}
+	}
+	return res, n
+}
+
+// MerkleUpdateTable: a Merkle update (as in a block's state_update) over two prunings of an old and a new version of a
+// tree, both sides containing pruned branches where possible; optionally wrapped in ordinary cells.
+func (g *G) MerkleUpdateTable() ([]Row, int, int) {
+	old := g.RandOrdinaryTable(DagOpts{MaxCells: g.Pick(3, 6, 12, 24), MaxBits: 200})
+	// the new version: the same shape with some data changed
+	nw := make([]Row, len(old))
+	for i, r := range old {
+		nw[i] = r
+		nw[i].Refs = append([]int{}, r.Refs...)
+		if g.Rng.Intn(3) == 0 {
+			nw[i].BitLen = g.RandBitLen(200)
+			nw[i].Data = g.RandData(nw[i].BitLen)
+		}
+	}
+	pick := func(t []Row) map[int]bool {
+		p := map[int]bool{}
+		for i := 1; i < len(t); i++ {
+			if g.Rng.Intn(3) == 0 {
+				p[i] = true
+			}
+		}
+		if len(t) > 1 && len(p) == 0 {
+			p[1+g.Rng.Intn(len(t)-1)] = true
+		}
+		return p
+	}
+	a, na := PruneRows(old, pick(old), 0)
+	b, nb := PruneRows(nw, pick(nw), 0)
+	sa, sb := NewSpecHasher(a), NewSpecHasher(b)
+	da, db := sa.Depth(0, 0), sb.Depth(0, 0)
+	data := append([]byte{4}, sa.Hash(0, 0)...)
+	data = append(data, sb.Hash(0, 0)...)
+	data = append(data, byte(da>>8), byte(da), byte(db>>8), byte(db))
+	t := []Row{{Ty: 4, Mask: (a[0].Mask | b[0].Mask) >> 1, BitLen: len(data) * 8, Data: data, Refs: []int{1, 1 + len(a)}}}
+	shift := func(rows []Row, by int) []Row {
+		o := make([]Row, len(rows))
+		for i, r := range rows {
+			refs := make([]int, len(r.Refs))
+			for j, c := range r.Refs {
+				refs[j] = c + by
+			}
+			r.Refs = refs
+			o[i] = r
+		}
+		return o
+	}
+	t = append(t, shift(a, 1)...)
+	t = append(t, shift(b, 1+len(a))...)
+	// a block-like wrapper above the update
+	for k := g.Rng.Intn(3); k > 0; k-- {
+		bl := g.RandBitLen(64)
+		t = append([]Row{{BitLen: bl, Data: g.RandData(bl), Mask: t[0].Mask, Refs: []int{1}}}, shift(t, 1)...)
+	}
+	return t, na, nb
+}
